@@ -371,6 +371,18 @@ type rop struct {
 	isStr  bool
 	varint bool // BufferX only
 	run    func(r reader, u8 func() (byte, error), bx *bytex.BufferX) (string, error)
+	// rawRun (read / readn / zreadn): returns the very slice the reader handed out, so that it can be looked at again later
+	rawRun func(r reader) ([]byte, error)
+}
+
+// do executes the read; for the raw readers it also returns the slice itself (not a copy).
+func (r rop) do(rd reader, u8 func() (byte, error), bx *bytex.BufferX) (string, []byte, error) {
+	if r.rawRun != nil {
+		p, err := r.rawRun(rd)
+		return showHex(p), p, err
+	}
+	v, err := r.run(rd, u8, bx)
+	return v, nil, err
 }
 
 func parseRead(f []string) (rop, bool) {
@@ -474,29 +486,23 @@ func parseRead(f []string) (rop, bool) {
 		if !ok || n < 0 {
 			return bad, false
 		}
-		return rop{name: "read " + strconv.Itoa(n), run: func(r reader, _ func() (byte, error), _ *bytex.BufferX) (string, error) {
+		return rop{name: "read " + strconv.Itoa(n), rawRun: func(r reader) ([]byte, error) {
 			p := make([]byte, n)
 			err := r.Read(p)
-			return showHex(p), err
+			return p, err
 		}}, true
 	case "readn":
 		n, ok := parseCount(f[1])
 		if !ok {
 			return bad, false
 		}
-		return rop{name: "readn " + strconv.Itoa(n), run: func(r reader, _ func() (byte, error), _ *bytex.BufferX) (string, error) {
-			p, err := r.ReadN(n)
-			return showHex(append([]byte{}, p...)), err
-		}}, true
+		return rop{name: "readn " + strconv.Itoa(n), rawRun: func(r reader) ([]byte, error) { return r.ReadN(n) }}, true
 	case "zreadn":
 		n, ok := parseCount(f[1])
 		if !ok {
 			return bad, false
 		}
-		return rop{name: "zreadn " + strconv.Itoa(n), run: func(r reader, _ func() (byte, error), _ *bytex.BufferX) (string, error) {
-			p, err := r.ZReadN(n)
-			return showHex(append([]byte{}, p...)), err
-		}}, true
+		return rop{name: "zreadn " + strconv.Itoa(n), rawRun: func(r reader) ([]byte, error) { return r.ZReadN(n) }}, true
 	}
 	return bad, false
 }
@@ -509,11 +515,54 @@ type state struct {
 	cr     *chunkReader
 	shadow *bytex.BufferX // BufferX over the same bytes as the stream (monitor only)
 	split  bool           // stream and shadow already differed once: stop comparing
+	kept   []keptVal      // slices handed out by Read/ReadN/ZReadN, looked at again by `recheck` and at the end
 
 	clean   bool // buffer content is exactly the typed writes in `pending`
 	pending []wval
 	trunc   *wval // the next read of this value's type is from a strict prefix of its encoding
 	hits    []corr.Hit
+}
+
+// keptVal is a byte slice a raw reader returned (the slice itself), with what it held at that moment.
+type keptVal struct {
+	who, op string
+	p       []byte
+	then    string
+	shadow  bool
+}
+
+func (st *state) keep(who, op string, p []byte, shadow bool) {
+	st.kept = append(st.kept, keptVal{who: who, op: op, p: p, then: showHex(p), shadow: shadow})
+}
+
+// checkKept: a value that was read stays what it was, whatever is read afterwards (values are immutable in the
+// model; BufferX results are forgotten when the buffer is written to, see `forget`).
+func (st *state) checkKept() {
+	for _, k := range st.kept {
+		if now := showHex(k.p); now != k.then {
+			method := map[string]string{"read": "Read", "readn": "ReadN", "zreadn": "ZReadN"}[strings.Fields(k.op)[0]]
+			st.hit(k.who+"."+method+":earlier-result-changed-by-later-read",
+				fmt.Sprintf("%s on a %s returned %s; after the later reads of the script the same slice holds %s", k.op, k.who, k.then, now))
+			break
+		}
+	}
+}
+
+// forget: BufferX.ZReadN hands out the buffer's own storage ("no copy"), valid until the buffer is written to.
+func (st *state) forget() { st.checkKept(); st.kept = nil }
+
+func (st *state) recheck() string {
+	var parts []string
+	for _, k := range st.kept {
+		if !k.shadow {
+			parts = append(parts, showHex(k.p))
+		}
+	}
+	st.checkKept()
+	if len(parts) == 0 {
+		return "recheck=."
+	}
+	return "recheck=" + strings.Join(parts, ",")
 }
 
 func (st *state) hit(key, what string) {
@@ -546,7 +595,7 @@ func (st *state) exec(line string) string {
 	if len(f) == 0 {
 		return "bad-op"
 	}
-	reset := func() { *st = state{hits: st.hits} }
+	reset := func() { st.checkKept(); *st = state{hits: st.hits} }
 	switch f[0] {
 	case "new":
 		if len(f) != 1 {
@@ -650,6 +699,7 @@ func (st *state) checkLimitRefusal(w wval, err error) {
 func (st *state) execBuf(f []string) string {
 	b := st.buf
 	if w, ok := parseWrite(f); ok {
+		st.forget()
 		before := b.Len()
 		_, err, p := call(func() (string, error) { return "", w.apply(b) })
 		if p != nil {
@@ -667,10 +717,14 @@ func (st *state) execBuf(f []string) string {
 		return fmt.Sprintf("ok len=%d", b.Len())
 	}
 	if r, ok := parseRead(f); ok {
-		v, err, p := call(func() (string, error) { return r.run(b, b.ReadU8, b) })
+		var raw []byte
+		v, err, p := call(func() (v string, err error) { v, raw, err = r.do(b, b.ReadU8, b); return })
 		if p != nil {
 			st.hit("read:panic", fmt.Sprintf("%s panicked on a buffer: %v", r.name, p))
 			return "panic"
+		}
+		if r.rawRun != nil && err == nil {
+			st.keep("BufferX", r.name, raw, false)
 		}
 		st.monitorBufRead(r, v, err)
 		if err != nil {
@@ -687,8 +741,13 @@ func (st *state) execBuf(f []string) string {
 		if len(f) == 1 {
 			return fmt.Sprintf("len=%d", b.Len())
 		}
+	case "recheck":
+		if len(f) == 1 {
+			return st.recheck()
+		}
 	case "reset":
 		if len(f) == 1 {
+			st.forget()
 			b.Reset()
 			st.pending, st.clean, st.trunc = nil, true, nil
 			return "ok len=0"
@@ -703,6 +762,7 @@ func (st *state) execBuf(f []string) string {
 		if !ok {
 			break
 		}
+		st.forget()
 		st.cr = &chunkReader{chunks: chunks, eager: f[1] == "1"}
 		st.rd = bytex.NewReaderX(st.cr)
 		st.shadow = bytex.NewReadableBufferX(append([]byte{}, data...))
@@ -732,6 +792,7 @@ func (st *state) execBuf(f []string) string {
 		if !ok {
 			break
 		}
+		st.forget()
 		before := append([]byte{}, b.Bytes()...)
 		_, _, pan := call(func() (string, error) {
 			if f[0] == "rewrite" {
@@ -814,6 +875,9 @@ func (st *state) execStream(f []string) string {
 	if f[0] == "xrstr" || f[0] == "xrlstr" {
 		return st.execProbe(f)
 	}
+	if len(f) == 1 && f[0] == "recheck" {
+		return st.recheck()
+	}
 	r, ok := parseRead(f)
 	if !ok || r.varint {
 		return "bad-op"
@@ -825,16 +889,24 @@ func (st *state) execStream(f []string) string {
 			return "guard:huge"
 		}
 	}
-	v, err, p := call(func() (string, error) { return r.run(st.rd, st.rd.ReadByte, nil) })
+	var raw []byte
+	v, err, p := call(func() (v string, err error) { v, raw, err = r.do(st.rd, st.rd.ReadByte, nil); return })
 	if p != nil {
 		st.hit("read:panic", fmt.Sprintf("%s panicked on a stream: %v", r.name, p))
 		return "panic"
+	}
+	if r.rawRun != nil && err == nil {
+		st.keep("ReaderX", r.name, raw, false)
 	}
 	nleft := len(st.cr.left())
 	st.monitorBufRead(r, v, err) // values written before `tostream` come back through the stream as well
 	// monitor: the buffer reader over the same bytes decodes the same
 	if !st.split {
-		sv, serr, sp := call(func() (string, error) { return r.run(st.shadow, st.shadow.ReadU8, st.shadow) })
+		var sraw []byte
+		sv, serr, sp := call(func() (v string, err error) { v, sraw, err = r.do(st.shadow, st.shadow.ReadU8, st.shadow); return })
+		if sp == nil && r.rawRun != nil && serr == nil {
+			st.keep("BufferX", r.name, sraw, true)
+		}
 		if sp == nil {
 			same := (err == nil) == (serr == nil) && (err != nil || v == sv) && nleft == st.shadow.Len()
 			if !same {
@@ -941,7 +1013,7 @@ func child(args []string) {
 	if !ok {
 		os.Exit(3)
 	}
-	v, err := r.run(st.rd, st.rd.ReadByte, nil)
+	v, _, err := r.do(st.rd, st.rd.ReadByte, nil)
 	if err != nil {
 		fmt.Printf("err:%s left=%d\n", errName(err), len(st.cr.left()))
 		return
@@ -968,6 +1040,7 @@ func runCase(c corr.Case) corr.Result {
 			}()
 			res.Outs = append(res.Outs, out)
 		}
+		st.checkKept() // implicit final recheck
 		res.Hits = st.hits
 		done <- res
 	}()
